@@ -1454,7 +1454,11 @@ class ComponentSpecification(experiment.model.interface.InternalRepresentationAt
                 else:
                     continue
                 replacement = ':'.join((replacement, d.method))
-                pattern = re.compile(r'\b' + re.escape(original_reference) + r'\b')
+                # VV: Replace whole reference strings only. FlowIR.discover_reference_strings() treats a run of
+                # [.a-zA-Z0-9_/-] characters that ends in :$method as one reference, use the same rule here so that
+                # a) references starting with a non-word character (e.g. absolute paths) are replaced too, and
+                # b) a reference is not replaced inside a longer one (e.g. `a:ref` in `stage0.a:ref` or `b-a:ref`)
+                pattern = re.compile(r'(?<![.\w/-])' + re.escape(original_reference) + r'\b')
                 arguments = re.sub(pattern, replacement, arguments)
 
             # VV: Replicas are named <blueprint name><replica index> (see FlowIR.compile_component_replica()).
